@@ -147,6 +147,16 @@ def run_c14(F, R):
         if spec[0] == 'constant':
             ok = any(init and init.get(m.params[0]) == ('arg', 'val') or (init and m.params and init.get(m.params[0], ('x',))[0] == 'arg') for _, init, _ in m.inits()) if m.params else False
             R.ob('S2', name + ':ctor', ok, 'constructor stores its argument in the constant field', v.file)
+    # S4: every child is updated on every path of update() (a child that misses inputs would report a stale / shifted value)
+    from .e2_protocol import UpdateProtocol
+    for name in SPEC:
+        v = views.get(name)
+        if v is None or not v.children_fields():
+            continue
+        before = len([o for o in R.obligations if not o[2]])
+        UpdateProtocol(v, R).run()
+        after = len([o for o in R.obligations if not o[2]])
+        R.ob('S4', name, after == before, 'every path of update() forwards the input to every child exactly once', v.file)
     R.floor('S1', 9)
     R.floor('S2', 10)
     R.floor('S2b', 9)
